@@ -15,7 +15,7 @@ theorem show_reparses (e : Expr) (pc : Bool) (rest : List Tok) (hr : canon pc 1 
     (hf : Follow pc rest) :
     ∃ e', parseExpr pc (showE e ++ rest) = .ok (e', rest) ∧ strip e' = strip e := by
   refine ⟨addShow e, ?_, strip_addShow e⟩
-  rw [showE_eq_render e pc 1 hr]
+  rw [showE_eq_render e hn pc 1 hr]
   exact parseExpr_canon pc (addShow e) rest (canon_addShow e hn pc 1 hr) (by unfold Follow at hf; omega)
 
 /-- Printing the re-parsed tree yields the same text again. -/
@@ -23,15 +23,16 @@ theorem show_idempotent (e : Expr) (pc : Bool) (rest : List Tok) (hr : canon pc 
     (hf : Follow pc rest) :
     ∀ e' rest', parseExpr pc (showE e ++ rest) = .ok (e', rest') → showE e' = showE e := by
   intro e' rest' h
-  have hs := showE_eq_render e pc 1 hr
+  have hs := showE_eq_render e hn pc 1 hr
   rw [hs, parseExpr_canon pc (addShow e) rest (canon_addShow e hn pc 1 hr) (by unfold Follow at hf; omega)] at h
   cases h
-  rw [showE_eq_render (addShow e) pc 1 (canon_addShow e hn pc 1 hr), addShow_idem e pc 1 hr]
+  rw [showE_eq_render (addShow e) (noConcat_addShow e hn) pc 1 (canon_addShow e hn pc 1 hr), addShow_idem e hn pc 1 hr]
   exact hs.symm
 
 /-- The printed tokens are the tree's own tokens plus parentheses exactly where `parenthesize` puts them. -/
-theorem show_is_render (e : Expr) (pc : Bool) (hr : canon pc 1 e = true) : showE e = render (addShow e) :=
-  showE_eq_render e pc 1 hr
+theorem show_is_render (e : Expr) (pc : Bool) (hr : canon pc 1 e = true) (hn : noConcat e = true) :
+    showE e = render (addShow e) :=
+  showE_eq_render e hn pc 1 hr
 
 /-- A printed string literal is read back by the lexer as the same bytes: for every byte string, every `IsPrint`
     predicate on non-ASCII runes, every continuation of the source. -/
